@@ -240,9 +240,14 @@ package account
 //@   ensures found == bindFound(name) && contract == bindContract(name) && position == bindPos(name) && decimal == bindDec(name)
 //@   modifies nothing
 
+// The key is handed out in a buffer of its own: SetData keeps the key slice BY REFERENCE in the journal entry it
+// appends, so a key that lives in a shared buffer would make every pending undo point at whichever slot was
+// computed last (C04). The hash value itself is abstract (erc20Key).
 //@ func AccountDB.GetERC20Key
-//@   option trusted
-//@   ensures result != nil && bytes(result) == erc20Key(address, position)
+//@   property C04 C06
+//@   option nosafety
+//@   ensures [value!assumed] result != nil && bytes(result) == erc20Key(address, position)
+//@   ensures [own] fresh(result) && len(result) == 32
 //@   modifies nothing
 
 //@ func AccountDB.getOrNewAccountObject
